@@ -218,6 +218,10 @@ func (store *Store) Restore() error {
 		if err != nil {
 			return err
 		}
+		if len(cmd) == 0 {
+			// Not a command (for example a zero-filled hole left by a lost write): nothing to replay.
+			continue
+		}
 		// If the command is a SELECT command, set the database value.
 		if strings.EqualFold(cmd[0], "select") {
 			database, err = strconv.Atoi(cmd[1])
